@@ -214,6 +214,19 @@ Theorem C17_entry_remove_index_state : forall w i a r b panics,
 Proof. exact entry_remove_state_independent_of_panic. Qed.
 Print Assumptions C17_entry_remove_index_state.
 
+(** ... and consistent: for every world satisfying the index invariant, whatever the detached component's
+    Drop does, the world the caller gets back from [Entry::remove] satisfies it again (the shape change as the
+    code performs it — the slot overwritten at the end, never released in between — is the composition of a
+    removal and a push, each of which keeps the invariant). *)
+Theorem C17_entry_remove_world : forall w i a r b panics, WInv w ->
+  nth_error (pw_slots w) i = Some (Some (a, r)) -> b < length (pw_archs w) ->
+  WInv (pw_entry_remove w i a r b panics).
+Proof. exact entry_remove_under_panic_keeps_WInv. Qed.
+Check (C17_entry_remove_world : forall w i a r b panics, WInv w ->
+  nth_error (pw_slots w) i = Some (Some (a, r)) -> b < length (pw_archs w) ->
+  WInv (pw_entry_remove w i a r b panics)).
+Print Assumptions C17_entry_remove_world.
+
 Theorem C17_entry_remove_dropped_early :
   let w := pw_entry_remove_gen false w_dst 0 0 0 1 true in
   nth_error (pw_slots w) 0 = Some (Some (0, 0)) /\ row_of w 0 0 = Some 2 /\ row_of w 1 1 = Some 0 /\ winv_b w = false.
